@@ -597,6 +597,55 @@ theorem decMap_rt (u : Bytes → Bool) (kt vt : CqlTy) (ihk : RT u kt) (ihv : RT
     rw [ihs r rest (fun x hx => hw x (List.mem_cons_of_mem _ hx)) hr hl.2.2]
     rfl
 
+theorem wf_tuple_inv (u : Bytes → Bool) (ts : List CqlTy) (v : CqlVal) (h : wfVal u (.tuple ts) v = true) :
+    v = .empty ∨ ∃ fs, v = .tuple fs ∧ fs ≠ [] ∧ fs.length ≤ ts.length ∧ wfTuple u ts fs = true := by
+  cases v <;> simp [wfVal] at h ⊢
+  exact ⟨h.1.1, h.1.2, h.2⟩
+
+theorem pad_null (t : CqlTy) : pad t .null = .null := by
+  cases t with
+  | native n => cases n <;> simp [pad]
+  | _ => simp [pad]
+
+theorem nullBytes_append_ne_nil (r : Bytes) : (nullBytes ++ r).isEmpty = false := by
+  simp [nullBytes]
+
+def RTTuple (u : Bytes → Bool) (ts : List CqlTy) : Prop :=
+  ∀ (fs : List CqlVal) (cells : Bytes), wfTuple u ts fs = true → fs.length ≤ ts.length →
+    encTupleSpec ts fs = .ok cells → cells.length < 2 ^ 64 →
+    decTuple u ts cells = .ok (padTuple ts fs) ∧ (fs ≠ [] → cells ≠ [])
+
+theorem wf_udt_inv (u : Bytes → Bool) (ks name : String) (fields : List (String × CqlTy)) (v : CqlVal)
+    (h : wfVal u (.udt ks name fields) v = true) :
+    ∃ m, v = .udt ks name m ∧ fields ≠ [] ∧ (fields.map (·.1)).Nodup ∧ wfUdt u fields m = true := by
+  cases v <;> simp [wfVal, CqlTy.supportsEmpty] at h ⊢
+  obtain ⟨⟨⟨⟨⟨h1, h2⟩, h3⟩, h4⟩, _⟩, h6⟩ := h
+  exact ⟨_, ⟨h1, h2, rfl⟩, h3, h4, h6⟩
+
+theorem lookupLast_removeName (n n' : String) (m : List (String × CqlVal)) (h : n' ≠ n) :
+    lookupLast n' (removeName n m) = lookupLast n' m := by
+  induction m with
+  | nil => rfl
+  | cons p m ih =>
+    obtain ⟨k, v⟩ := p
+    unfold removeName at ih ⊢
+    by_cases hk : k = n
+    · subst hk
+      have : decide ((k, v).1 ≠ k) = false := by simp
+      rw [List.filter_cons_of_neg (by simp), ih]
+      simp only [lookupLast]
+      have : ¬ (k = n') := fun e => h e.symm
+      simp only [this, if_false]
+      cases lookupLast n' m <;> rfl
+    · rw [List.filter_cons_of_pos (by simp [hk])]
+      simp only [lookupLast, ih]
+
+def RTUdt (u : Bytes → Bool) (fields : List (String × CqlTy)) : Prop :=
+  ∀ (m m' : List (String × CqlVal)) (cells : Bytes) (l : List (String × CqlVal)),
+    (∀ f, f ∈ fields → lookupLast f.1 m' = lookupLast f.1 m) → (fields.map (·.1)).Nodup →
+    wfUdt u fields m = true → encUdtSpec fields m' = .ok (cells, l) → cells.length < 2 ^ 64 →
+    decUdt u fields cells = .ok (padUdt fields m) ∧ (fields ≠ [] → cells ≠ [])
+
 mutual
 theorem rt (u : Bytes → Bool) : ∀ t : CqlTy, RT u t
   | .native n => by
@@ -667,9 +716,179 @@ theorem rt (u : Bytes → Bool) : ∀ t : CqlTy, RT u t
           rw [List.append_nil] at this
           rw [this]
           rfl
-  | .tuple ts => by sorry
-  | .udt ks name fields => by sorry
+  | .tuple ts => by
+    intro v body hw he hlt
+    rcases wf_tuple_inv u ts v hw with rfl | ⟨fs, rfl, hne, hlen, hwt⟩
+    · exact rt_empty u _ body hw he
+    · rw [encSpec] at he
+      simp only [viewOf] at he
+      have hl : ¬ (ts.length < fs.length) := by omega
+      simp only [hl, if_false] at he
+      cases hc : encTupleSpec ts fs with
+      | error e => rw [hc] at he; cases he
+      | ok cells =>
+        rw [hc] at he
+        simp only [frame] at he
+        cases he
+        obtain ⟨h1, h2⟩ := rtTuple u ts fs body hwt hlen hc hlt
+        have h3 := h2 hne
+        refine ⟨?_, fun h => absurd h h3⟩
+        rw [decVal]
+        have : body.isEmpty = false := by cases body <;> simp at h3 ⊢
+        simp only [this, Bool.false_and, pad, h1]
+        rfl
+  | .udt ks name fields => by
+    intro v body hw he hlt
+    obtain ⟨m, rfl, hne, hnd, hwu⟩ := wf_udt_inv u ks name fields v hw
+    rw [encSpec] at he
+    simp only [viewOf] at he
+    have hnm : (decide (ks ≠ ks) || decide (name ≠ name)) = false := by simp
+    simp only [hnm, Bool.false_eq_true, if_false] at he
+    cases hc : encUdtSpec fields m with
+    | error e => rw [hc] at he; cases he
+    | ok r =>
+      obtain ⟨cells, l⟩ := r
+      rw [hc] at he
+      simp only at he
+      split at he
+      · cases he
+      · simp only [frame] at he
+        cases he
+        obtain ⟨h1, h2⟩ := rtUdt u fields m m body l (fun _ _ => rfl) hnd hwu hc hlt
+        have h3 := h2 hne
+        refine ⟨?_, fun h => absurd h h3⟩
+        rw [decVal]
+        have : body.isEmpty = false := by cases body <;> simp at h3 ⊢
+        simp only [this, Bool.false_and, pad, h1]
+        rfl
   | .vector elt dim => by sorry
+theorem rtTuple (u : Bytes → Bool) : ∀ ts : List CqlTy, RTTuple u ts
+  | [] => by
+    intro fs cells _ hlen he _
+    cases fs with
+    | nil => simp [decTuple, padTuple]
+    | cons f fs => simp at hlen
+  | t :: ts => by
+    intro fs cells hw hlen he hlt
+    cases fs with
+    | nil =>
+      simp only [encTupleSpec] at he
+      cases he
+      have := (rtTuple u ts [] [] (by cases ts <;> rfl) (by simp) (by cases ts <;> rfl) (by simp)).1
+      simp [decTuple, padTuple, this]
+    | cons f fs =>
+      rw [encTupleSpec] at he
+      cases hc : encSpec t f true with
+      | error e => rw [hc] at he; cases he
+      | ok c =>
+        rw [hc] at he
+        simp only at he
+        cases hr : encTupleSpec ts fs with
+        | error e => rw [hr] at he; cases he
+        | ok r =>
+          rw [hr] at he
+          cases he
+          rw [wfTuple] at hw
+          simp only [Bool.and_eq_true, Bool.or_eq_true] at hw
+          have hlen' : fs.length ≤ ts.length := by simpa using hlen
+          have hlr : c.length < 2 ^ 64 ∧ r.length < 2 ^ 64 := by
+            simp only [List.length_append] at hlt; omega
+          have ih2 := (rtTuple u ts fs r hw.2 hlen' hr hlr.2).1
+          rcases hw.1 with hnull | hwf
+          · -- null field
+            cases f <;> simp [isNullVal] at hnull
+            rw [encSpec] at hc
+            simp only [viewOf, if_true] at hc
+            cases hc
+            refine ⟨?_, fun _ => by simp [nullBytes]⟩
+            rw [decTuple]
+            simp only [nullBytes_append_ne_nil, Bool.false_eq_true, if_false, readCqlBytes_null, ih2, padTuple, pad_null]
+          · obtain ⟨body, hb, hblen, rfl⟩ := wf_cell u t f c hwf hc
+            have hbl : body.length < 2 ^ 64 := by
+              have := i32Max_lt
+              omega
+            refine ⟨?_, fun _ => by simp [be32, beBytes]⟩
+            rw [decTuple]
+            have hne : (be32 body.length ++ body ++ r).isEmpty = false := by simp [be32, beBytes]
+            simp only [hne, Bool.false_eq_true, if_false, readCqlBytes_cell body r hblen,
+              (rt u t f body hwf hb hbl).1, ih2, padTuple]
+theorem rtUdt (u : Bytes → Bool) : ∀ fields : List (String × CqlTy), RTUdt u fields
+  | [] => by
+    intro m m' cells l _ _ _ he _
+    simp [decUdt, padUdt]
+  | (n, t) :: rest => by
+    intro m m' cells l hag hnd hw he hlt
+    have hn := hag (n, t) List.mem_cons_self
+    simp only at hn
+    simp only [List.map_cons, List.nodup_cons] at hnd
+    rw [wfUdt] at hw
+    simp only [Bool.and_eq_true, Bool.or_eq_true] at hw
+    rw [encUdtSpec] at he
+    rw [hn] at he
+    have hagr : ∀ f, f ∈ rest → lookupLast f.1 m' = lookupLast f.1 m :=
+      fun f hf => hag f (List.mem_cons_of_mem _ hf)
+    cases hl : lookupLast n m with
+    | none =>
+      rw [hl] at he
+      simp only at he
+      cases hr : encUdtSpec rest m' with
+      | error e => rw [hr] at he; cases he
+      | ok rr =>
+        obtain ⟨r, l'⟩ := rr
+        rw [hr] at he
+        cases he
+        have hlr : r.length < 2 ^ 64 := by simp only [List.length_append] at hlt; omega
+        have ih2 := (rtUdt u rest m m' r _ hagr hnd.2 hw.2 hr hlr).1
+        refine ⟨?_, fun _ => by simp [nullBytes]⟩
+        rw [decUdt]
+        simp only [nullBytes_append_ne_nil, Bool.false_eq_true, if_false, readCqlBytes_null, ih2, padUdt,
+          lookupOrNull, hl, pad_null]
+    | some v =>
+      rw [hl] at he
+      simp only at he
+      have hlo : lookupOrNull n m = v := by simp [lookupOrNull, hl]
+      rw [hlo] at hw
+      cases hc : encSpec t v true with
+      | error e => rw [hc] at he; cases he
+      | ok c =>
+        rw [hc] at he
+        simp only at he
+        cases hr : encUdtSpec rest (removeName n m') with
+        | error e => rw [hr] at he; cases he
+        | ok rr =>
+          obtain ⟨r, l'⟩ := rr
+          rw [hr] at he
+          cases he
+          have hlr : c.length < 2 ^ 64 ∧ r.length < 2 ^ 64 := by
+            simp only [List.length_append] at hlt; omega
+          have hag' : ∀ f, f ∈ rest → lookupLast f.1 (removeName n m') = lookupLast f.1 m := by
+            intro f hf
+            have hne : f.1 ≠ n := by
+              intro e
+              apply hnd.1
+              rw [← e]
+              exact List.mem_map_of_mem hf
+            rw [lookupLast_removeName n f.1 m' hne]
+            exact hagr f hf
+          have ih2 := (rtUdt u rest m (removeName n m') r _ hag' hnd.2 hw.2 hr hlr.2).1
+          rcases hw.1 with hnull | hwf
+          · cases v <;> simp [isNullVal] at hnull
+            rw [encSpec] at hc
+            simp only [viewOf, if_true] at hc
+            cases hc
+            refine ⟨?_, fun _ => by simp [nullBytes]⟩
+            rw [decUdt]
+            simp only [nullBytes_append_ne_nil, Bool.false_eq_true, if_false, readCqlBytes_null, ih2, padUdt,
+              hlo, pad_null]
+          · obtain ⟨body, hb, hblen, rfl⟩ := wf_cell u t v c hwf hc
+            have hbl : body.length < 2 ^ 64 := by
+              have := i32Max_lt
+              omega
+            refine ⟨?_, fun _ => by simp [be32, beBytes]⟩
+            rw [decUdt]
+            have hne : (be32 body.length ++ body ++ r).isEmpty = false := by simp [be32, beBytes]
+            simp only [hne, Bool.false_eq_true, if_false, readCqlBytes_cell body r hblen,
+              (rt u t v body hwf hb hbl).1, ih2, padUdt, hlo]
 end
 
 end ScyllaVerif.Proofs.CodecDec
